@@ -351,8 +351,11 @@ def k4(chk, repo):
                         thr_txt = None
                         if isinstance(node, ast.Compare):
                             # which side is the threshold: the one without abs()
-                            for side in [node.left] + list(node.comparators):
-                                if "abs" not in unparse(side):
+                            sides = [node.left] + list(node.comparators)
+                            # the tested quantity is the bare |array| side; the other side is the threshold
+                            tested = [sd for sd in sides if isinstance(sd, ast.Call) and unparse(sd.func) in ("np.abs", "abs", "numpy.abs", "np.absolute") and len(sd.args) == 1 and isinstance(sd.args[0], ast.Subscript)]
+                            for side in sides:
+                                if side not in tested[:1] and (tested or "abs" not in unparse(side)):
                                     thr_txt = unparse(side)
                                     # dependence of the threshold expression on inputs / outputs
                                     names = {n.id for n in ast.walk(side) if isinstance(n, ast.Name)}
